@@ -379,3 +379,13 @@ func (s *Scheduler) VerifHistoryJSON() []string {
 	sort.Strings(out)
 	return out
 }
+
+// VerifSource builds the source of a job configuration the way the scheduler does.
+func (s *Scheduler) VerifSource(cfg *JobConfiguration) (source.Source, error) {
+	return s.parseSource(cfg)
+}
+
+// VerifSetJobToken stores a continuation token as the job's sync state (what a pipeline does after a batch).
+func (s *Scheduler) VerifSetJobToken(jobID, token string) error {
+	return s.Store.StoreObject(server.JobDataIndex, jobID, &SyncJobState{ID: jobID, ContinuationToken: token})
+}
